@@ -1,4 +1,9 @@
 CHECKS = {
+ "C01": {
+  "technique": "Lean 4 proof (Montgomery/CIOS invariant by induction over words, exponent bits, list lengths; ZMod) + regenerated constants (decide +kernel) + differential correspondence on raw limbs for 23 fields",
+  "text": "37 kernel-checked theorems about the value-level model of a generated field package, for every well-formed parameter set (any word size, any number of words, any odd modulus), every canonical operand, every integer exponent and every vector length: the word-serial CIOS product is exact and canonical, add/sub/neg/double/halve/small multiples, Exp over Z, Inverse (0↦0), Div, BatchInvert (Montgomery trick with zeros skipped = map inverse), Legendre (Euler), Sqrt (exact for q≡3 mod 4; Tonelli-Shanks partial), Cmp/LexicographicallyLargest, vector ops. C01_params_ok re-proves on every run that the constants extracted from the 23 packages satisfy the theorems' hypotheses. The model is tied to the Go code (asm or purego, all 23 fields) by comparing raw Montgomery limbs on the boundary lattice and random operands.",
+  "note": "Trusted: Lean kernel, Mathlib, axioms propext/Classical.choice/Quot.sound; the constants extractor and the Go harness. Limb-level code (unrolled Go, assembly) is reached by correspondence only; primality of the moduli is a hypothesis; Tonelli-Shanks completeness is conditional on the least non-residue being < 1001 (C01_sqrt_TS).",
+ },
  "C15": {
   "technique": "Lean 4 proof (invariant by induction over call histories) + differential correspondence Go vs Lean model",
   "text": "Kernel-checked theorems over an executable model of the transcript for every hash, name list and finite history: refusals leave the state unchanged, computed challenges always form a prefix, every returned challenge equals the sequential specification H(name‖previous‖bindings), recompute is idempotent. The model is tied to fiat-shamir/transcript.go by running both on the same histories (bounded-exhaustive + random, with caller-side mutation of every slice handed in or out).",
